@@ -621,7 +621,7 @@ STATUS_EXEMPT = {("set_logfile", "decoder_set_logfile"): "a log file that cannot
 
 
 def status_rule(ctx, P):
-    r = ctx.rule("ERRD.status", "the result of a function that reports failure through its integer result (it has both a `return 0` and a negative return) is not discarded: a call whose value is unused lets a refused configuration / input go on as if accepted", floor=60)
+    r = ctx.rule("ERRD.status", "the result of a function that reports failure through its integer result (it has both a `return 0` and a negative return) is not discarded: a call whose value is unused lets a refused configuration / input go on as if accepted", floor=40)
     status = {}
     for f in P.repo_functions():
         if unit_of(f) in GENERATED or f.d.get("ret") not in ("int", "int32", "int32_t", "long"):
@@ -775,7 +775,7 @@ def run(ctx):
         raise AnalysisIncomplete("input function set shrank to %d" % len(own))
     exit_rule(ctx, P, own, gen)
     parsers = [f for f in own if unit_of(f) in ("jsgf.c", "fsg_model.c", "dict.c", "config.c", "decoder.c", "cmn.c", "strfuncs.c")]
-    c17.errd_null(ctx, P, parsers, floor=20, what="parser / constructor", skip=("hash_table_enter", "hash_table_replace", "glist_add_ptr", "config_str", "config_get", "hash_table_iter", "hash_table_iter_next", "jsgf_get_rule", "jsgf_get_public_rule"))
+    c17.errd_null(ctx, P, parsers, floor=14, what="parser / constructor", skip=("hash_table_enter", "hash_table_replace", "glist_add_ptr", "config_str", "config_get", "hash_table_iter", "hash_table_iter_next", "jsgf_get_rule", "jsgf_get_public_rule"))
     c17.unwind_rule(ctx, P, parsers, floor=15, only_readers=False, extra_allocs=("copy_header_value", "string_join", "s3file_copy_nextword"))
     consume_rule(ctx, P, own)
     span_rule(ctx, P, own)
